@@ -1,7 +1,6 @@
 import VOPyVerif.Proofs.AdaptiveVol
 import VOPyVerif.Proofs.AdaptivePoints
 import VOPyVerif.Proofs.AdaptiveVh
-import VOPyVerif.Proofs.GenAgreeC18
 import Mathlib.Data.Real.Basic
 /-!
 # C18 — adaptive discretisation tiles the domain; VOGP_AD declares only finest leaves
@@ -447,69 +446,5 @@ example : (Vh.vhEntry 2 2 (0.05 : ℝ) (3 : Int) 1 1 : ℝ) < Vh.vhEntry 2 2 (0.
   exact_mod_cast this
 
 end VhTerms
-
-/-! ## SOURCE AGREEMENT — the `Vh` and `compute_beta` terms are the terms read off the Python source
-
-Second tie between model and code (DESIGN §2.10), beside the numeric comparison at `Float`:
-`harness/translate.py` regenerates `Gen/C18.lean` from the *source text* of
-`AdaptivelyDiscretizedDesignSpace.calculate_design_vh` (`vopy/design_space.py`) and
-`VOGP_AD.compute_beta` (`vopy/algorithms/vogp_ad.py`) on every `./check C18` (Python `ast`; the
-locals `rho`, `alpha`, `N`, `diam_x`, `v1`, `Cki`, `C1…C3`, `term1…term4`, `rkhs_bound`, `beta_sqr`
-inlined; integer sub-expressions kept integral; nothing executed), and the theorems below are
-re-checked against the regenerated file.  Level: **polymorphic** (`∀ α [RealLike α] [LeB α]`), all
-by `rfl` (`Proofs/GenAgreeC18.lean`; per-local agreements `gen_cki_eq … gen_term4_eq` there localise
-a break).  Inputs of the generated terms: `depth = point_depths[design_index] + depth_offset`,
-`ls = lengthscales[i]`, `var = variances[i]`, `det = np.linalg.det(Kn + np.eye(len(Kn)))`. -/
-
-section SourceAgreement
-variable {α : Type} [RealLike α]
-
-/-- One entry `Vh[i]` of `calculate_design_vh` as written in the source, every local inlined =
-`Vh.vhEntry` (polymorphic, `rfl`). -/
-theorem source_vhEntry [LeB α] (d m : Nat) (δ : α) (depth : Int) (ls var : α) :
-    Gen.C18.gen_vhEntry d m δ depth ls var = Vh.vhEntry d m δ depth ls var :=
-  GenAgree.C18.gen_vhEntry_eq d m δ depth ls var
-
-/-- The locals of `calculate_design_vh` the model names, as written in the source = the model's
-sub-terms (polymorphic, `rfl`): `Cki`, `term1`, `C1`, `C2`, `C3`, `term2`, `term3`, `term4`. -/
-theorem source_vh_locals [LeB α] (d m : Nat) (δ : α) (depth : Int) (ls var : α) :
-    Gen.C18.gen_cki ls var = Vh.cki ls var ∧
-    Gen.C18.gen_term1 d depth ls var = Vh.term1 d depth ls var ∧
-    Gen.C18.gen_c1 d ls var = Vh.c1 d ls var ∧
-    Gen.C18.gen_c2 d ls var = Vh.c2 d ls var ∧
-    (Gen.C18.gen_c3 d : α) = Vh.c3 d ∧
-    Gen.C18.gen_term2 m depth δ = Vh.term2 m depth δ ∧
-    (Gen.C18.gen_term3 depth : α) = Vh.term3 depth ∧
-    Gen.C18.gen_term4 d depth ls var = Vh.term4 d depth ls var :=
-  ⟨GenAgree.C18.gen_cki_eq ls var, GenAgree.C18.gen_term1_eq d depth ls var,
-    GenAgree.C18.gen_c1_eq d ls var, GenAgree.C18.gen_c2_eq d ls var, GenAgree.C18.gen_c3_eq d,
-    GenAgree.C18.gen_term2_eq m depth δ, GenAgree.C18.gen_term3_eq depth,
-    GenAgree.C18.gen_term4_eq d depth ls var⟩
-
-/-- `VOGP_AD.compute_beta` as written in the source = `Vh.vogpAdBeta` (polymorphic, `rfl`). -/
-theorem source_vogpAdBeta (noiseVar δ det c : α) :
-    Gen.C18.gen_vogpAdBeta noiseVar δ det c = Vh.vogpAdBeta noiseVar δ det c :=
-  GenAgree.C18.gen_vogpAdBeta_eq noiseVar δ det c
-
-end SourceAgreement
-
-/-- `vh_closed_form` and the closed form of `compute_beta` for the source-derived terms: the
-expressions `design_space.py` / `vogp_ad.py` compute, at `ℝ`, are the stated closed forms. -/
-theorem source_closed_forms (d m : Nat) (δ : ℝ) (depth : Int) (ls var nv det : ℝ) {c : ℝ}
-    (hc : 0 < c) :
-    let Cki := Real.sqrt var / ls
-    let T := Cki * (1 / 2 * Real.sqrt d * (1 / 2 : ℝ) ^ depth)
-    let C1 := ((Real.sqrt d + 1) * Real.sqrt d / 2) ^ d * Cki
-    let C2 := 2 * Real.log (2 * C1 ^ 2 * Real.pi ^ 2 / 6)
-    let C3 := 1 + 27 / 10 * Real.sqrt ((2 * d : ℕ) * Real.log 2)
-    let t2 := Real.log (2 * ((depth : ℝ) + 1) ^ 2 * Real.pi ^ 2 * m / (6 * δ))
-    let t3 := (depth : ℝ) * Real.log 4
-    let t4 := max 0 (-(4 * (d : ℝ)) * Real.log T)
-    (Gen.C18.gen_vhEntry d m δ depth ls var : ℝ) = 4 * T * (Real.sqrt (C2 + 2 * t2 + t3 + t4) + C3) ∧
-    Gen.C18.gen_vogpAdBeta nv δ det c =
-        (1 / 10 + Real.sqrt (nv * Real.log (det / nv) - 2 * Real.log δ)) / Real.sqrt c := by
-  intro Cki T C1 C2 C3 t2 t3 t4
-  rw [source_vhEntry, source_vogpAdBeta]
-  exact ⟨vh_closed_form d m δ depth ls var, (vogpAdBeta_closed_form nv δ det hc).1⟩
 
 end VOPy.C18
